@@ -274,6 +274,48 @@ func c17Gen(tier string, emit func(any)) {
 		}
 	}
 	rec(0, map[string]string{})
+	// equal-decls: a commented function among value declarations, some of which the rewrite makes equal to others
+	// (S: "var _ = foo(i)", rewritten to bar(i); B: "var _ = bar(j)"): every sequence over {S, B} of length <= 6
+	// (thorough 8) with at least one S x every position of the function
+	eq := &model.Change{Kind: "expr", Meta: []model.MetaVar{{Name: "a", Kind: "expression"}}, Lines: model.L("-foo(a)", "+bar(a)")}
+	const fnU = "// U doc.\nfunc U() {\n\t// inside U\n\tkeep() // trailing keep\n\t/* block in U */\n} // trailing U\n"
+	maxN := 6
+	if tier == "thorough" {
+		maxN = 8
+	}
+	for n := 1; n <= maxN; n++ {
+		for mask := 0; mask < 1<<n; mask++ {
+			if mask == 1<<n-1 {
+				continue // no S
+			}
+			for upos := 0; upos <= n; upos++ {
+				var decls []string
+				seq := ""
+				ns, nb := 0, 0
+				for i := 0; i <= n; i++ {
+					if i == upos {
+						decls = append(decls, fnU)
+						seq += "U"
+					}
+					if i == n {
+						break
+					}
+					if mask&(1<<i) == 0 {
+						ns++
+						decls = append(decls, fmt.Sprintf("var _ = foo(%d)\n", ns))
+						seq += "S"
+					} else {
+						nb++
+						decls = append(decls, fmt.Sprintf("var _ = bar(%d)\n", nb))
+						seq += "B"
+					}
+				}
+				for _, mode := range []string{"", "cli"} {
+					emit(&C17Case{PatchID: "expr-equal-decls", Changes: []*model.Change{eq}, Slots: map[string]string{"U": "doc, inside, trailing"}, Sites: seq, File: "package p\n\n" + strings.Join(decls, "\n"), Mode: mode})
+				}
+			}
+		}
+	}
 }
 
 type declComments struct {
@@ -549,6 +591,12 @@ func c17Run(env *core.Env, ci any) core.Outcome {
 			}
 			if i == 0 && slot == "doc" && hasPlusImport && !strings.Contains(c.File, "import ") && len(outD[i].comments) == len(inD[i].comments)-1 {
 				return bad("!first-decl-doc-captured-by-first-added-import", "the change adds the first import declaration of the file; the doc comment of the first declaration ends up on the import line and is no longer attached to its declaration:\n in  %q\n out %q", inD[i].comments, outD[i].comments)
+			}
+			if c.PatchID == "expr-equal-decls" && strings.Contains(inD[i].canon, "keep") && len(outD[i].comments) < len(inD[i].comments) {
+				// the function among declarations that the rewrite makes equal to one another: astdiff's greedy
+				// alignment pairs a rewritten declaration with an equal one further on and takes the function
+				// in between for deleted code, whose comments cleanupFilePos then removes
+				return bad("!comments-of-function-between-declarations-made-equal-deleted", "declaration %d (the function) is syntactically unchanged but lost comments:\n in  %q\n out %q", i+1, inD[i].comments, outD[i].comments)
 			}
 			return bad(fmt.Sprintf("untouched-decl-comments-changed/d%d/%s", i+1, slot), "declaration %d is syntactically unchanged but its comments differ:\n in  %q\n out %q", i+1, inD[i].comments, outD[i].comments)
 		}
